@@ -59,6 +59,7 @@ NumCases ==
   \o << C("bin", <<L(<<"x">>)>>), C("hex", <<L(Frac)>>), C("oct", <<L(Empty)>>), C("bin", <<Num(Huge)>>),
         C("abs", <<Num(Neg(5))>>), C("abs", <<Num(D(7))>>), C("abs", <<Num(D(0))>>), C("abs", <<L(<<"q">>)>>),
         C("power", <<Num(D(2)), Num(D(9))>>), C("power", <<Num(D(3)), Num(D(0))>>), C("power", <<Num(D(10)), Num(D(3))>>),
+        C("concat_ws", <<L(<<"-">>), L(<<"a">>), L(<<>>), L(<<"b">>)>>), C("concat_ws", <<L(<<",">>), L(<<>>), L(<<>>), L(<<>>)>>), C("length", <<C("concat_ws", <<L(<<"|">>), L(<<>>), L(<<"x">>)>>)>>),
         C("power", <<Num(Neg(2)), Num(D(3))>>), C("power", <<Num(D(16)), Num(<<"0", ".", "5">>)>>), C("power", <<Num(D(9)), Num(<<"1", ".", "5">>)>>),
         C("power", <<Num(D(2)), Num(Neg(1))>>), C("power", <<Num(D(4)), Num(Neg(2))>>), C("power", <<Num(D(1024)), Num(<<"0", ".", "5">>)>>), C("power", <<Num(D(2)), Num(D(70))>>), C("power", <<Num(D(2)), Num(D(63))>>), C("power", <<Num(D(10)), Num(D(20))>>),
         C("length", <<C("power", <<Num(D(10)), Num(D(6))>>)>>), C("power", <<Num(D(2)), Num(D(31))>>), C("power", <<Num(D(2)), L(<<"x">>)>>), C("power", <<L(<<"x">>), Num(D(2))>>),
